@@ -114,6 +114,16 @@ def run(ctx):
         if r.cls != "error" or r.stdout != b"":
             ctx.violation("entropy-failure-in-one-worker", dict(op="new --vanity-prefix 0xfffffff", fail_at_request=rn["k"], threads=rn["j"]),
                           "error exit, nothing printed", str(r)[:300])
+    # phrases produced by a vanity search (every candidate after the first is a NEW mnemonic) parse back as well
+    vruns = [dict(args=["new", "-n", str(n), "--vanity-prefix", p, "-j", str(j)], timeout=120) for n in (12, 15, 18, 21, 24) for p, j in (("0x1", 0), ("0xa", 2), ("0xF", 1))]
+    vres = ctx.cli(vruns, timeout=120)
+    vph = [r.stdout.decode().strip() for r in vres]
+    vback = ctx.harness([("mnemonic.parse", p) for p in vph])
+    for rn, r, p, b in zip(vruns, vres, vph, vback):
+        ctx.count("vanity-phrase-parses-back")
+        ctx.distinct(("vanity", tuple(rn["args"])))
+        if r.cls != "ok" or b.tag != "ok" or b.fields[0].decode() != p or len(p.split(" ")) != int(rn["args"][2]):
+            ctx.violation("generated-phrase-parses-back(vanity)", dict(op="hdwallet " + " ".join(rn["args"]), phrase=p), "a valid phrase of the requested length", dict(cli=str(r)[:200], parse=str(b)[:200]))
     # without the shim: independent invocations differ, and parse back
     k = 32 if not thorough else 200
     res = ctx.cli([dict(args=["new", "-n", str(rng.choice(list(LENS)))]) for _ in range(k)])
